@@ -935,29 +935,8 @@ Proof.
   specialize (H _ Hin). simpl in H. eapply Ordered_thin; [exact HT|]. apply cordered_inst. exact H.
 Qed.
 
-Lemma generated_table_cordered :
-  forallb (fun x : String.string * list caction => cordered (snd x)) all_footprints = true.
-Proof. vm_compute. reflexivity. Qed.
 
-Lemma generated_ticker_body_ok : cordered ticker_body = true /\ cworker_ok ticker_body = true.
-Proof. split; vm_compute; reflexivity. Qed.
 
-Theorem footprints_ordered :
-  (forall name p, In (name, p) all_footprints ->
-     forall b m k q, Thin (map (inst b m k) p) q -> Ordered q) /\
-  (forall b m k n, Ordered (repeat_list n (map (inst b m k) ticker_body)) /\
-                   worker_ok (repeat_list n (map (inst b m k) ticker_body)) = true).
-Proof.
-  split.
-  - apply table_ordered. exact generated_table_cordered.
-  - intros b m k n. destruct generated_ticker_body_ok as [Ho Hw].
-    induction n as [|n [IH1 IH2]]; cbn [repeat_list].
-    + split; reflexivity.
-    + split.
-      * apply Ordered_app; [apply cordered_inst; exact Ho|exact IH1].
-      * unfold worker_ok in *. rewrite forallb_app. rewrite IH2.
-        pose proof (cworker_inst _ Hw b m k) as Hw'. unfold worker_ok in Hw'. rewrite Hw'. reflexivity.
-Qed.
 
 (** the nesting found in the generated footprints: exactly Bar -> Multi and Slot -> Stop
     (plus, through the join under Slot, Slot -> everything the ticker body takes) *)
@@ -967,10 +946,6 @@ Fixpoint cdedup (l : list (cres * cres)) : list (cres * cres) :=
   | [] => []
   | x :: r => if existsb (cpair_eqb x) r then cdedup r else x :: cdedup r
   end.
-Lemma generated_nesting :
-  cdedup (concat (map (fun x : String.string * list caction => cnest_from [] (snd x)) all_footprints))
-  = [(CSlot, CStop); (CBar, CMulti)].
-Proof. vm_compute. reflexivity. Qed.
 
 Lemma old_update_rejected :
   cordered old_update_fp = false /\
@@ -1068,8 +1043,6 @@ Definition stop_protocol_ok (tbl : list (String.string * list caction)) (body : 
   ends_with wait_fp body &&
   forallb (fun n => match fp_lookup n tbl with Some p => ends_with wake_fp p | None => false end) finish_names.
 
-Theorem generated_stop_protocol : stop_protocol_ok all_footprints ticker_body = true.
-Proof. vm_compute. reflexivity. Qed.
 
 (* ------------------------------------------------------------ structured programs: soundness of [check] *)
 Section cprog_induction.
@@ -1111,36 +1084,112 @@ Proof.
     rewrite (IH y H2). reflexivity.
 Qed.
 
-Lemma hmem_In : forall h hs, hmem h hs = true -> In h hs.
+(** soundness of the generic abstract interpreter: from any entry state in [ss], every path of [p]
+    runs without violation and ends in a state of the computed set *)
+Section AbstractInterpreterSound.
+  Variable S : Type.
+  Variable seqb : S -> S -> bool.
+  Hypothesis seqb_eq : forall x y, seqb x y = true -> x = y.
+  Variable stepf : caction -> S -> option S.
+
+  Lemma smem_In : forall x ss, smem S seqb x ss = true -> In x ss.
+  Proof.
+    intros x ss H. unfold smem in H. apply existsb_exists in H. destruct H as (y & Hin & He).
+    apply seqb_eq in He. subst y. exact Hin.
+  Qed.
+
+  Lemma In_sdedup : forall x ss, In x ss -> In x (sdedup S seqb ss).
+  Proof.
+    induction ss as [|y r IH]; intro H; [contradiction|]. simpl.
+    destruct (smem S seqb y r) eqn:E.
+    - destruct H as [->|H]; [apply IH; apply smem_In; exact E|apply IH; exact H].
+    - destruct H as [->|H]; [left; reflexivity|right; apply IH; exact H].
+  Qed.
+
+  Lemma arun_app : forall t1 s t2,
+    arun stepf s (t1 ++ t2) = match arun stepf s t1 with Some s' => arun stepf s' t2 | None => None end.
+  Proof.
+    induction t1 as [|a t1 IH]; intros s t2; simpl; [reflexivity|].
+    destruct (stepf a s); [apply IH|reflexivity].
+  Qed.
+
+  Lemma astep_all_sound : forall a ss o, astep_all S stepf a ss = Some o ->
+    forall s, In s ss -> exists s', stepf a s = Some s' /\ In s' o.
+  Proof.
+    induction ss as [|x r IH]; intros o H s Hin; [contradiction|].
+    simpl in H. destruct (stepf a x) as [x'|] eqn:E1; [|discriminate].
+    destruct (astep_all S stepf a r) as [o'|] eqn:E2; [|discriminate]. injection H as <-.
+    destruct Hin as [->|Hin].
+    - exists x'. split; [exact E1|left; reflexivity].
+    - destruct (IH o' eq_refl s Hin) as (s' & H1 & H2). exists s'. split; [exact H1|right; exact H2].
+  Qed.
+
+  Theorem acheck_sound : forall p ss outs, acheck seqb stepf p ss = Some outs ->
+    forall s tr, In s ss -> paths p tr -> exists s', arun stepf s tr = Some s' /\ In s' outs.
+  Proof.
+    induction p as [a|l IHl|alts IHa|b IHb|c IHc] using cprog_ind'; intros ss outs H s tr Hin Hp.
+    - (* PAct *)
+      inversion Hp; subst. simpl in H.
+      destruct (astep_all S stepf a ss) as [o|] eqn:E; [|discriminate]. simpl in H. injection H as <-.
+      destruct (astep_all_sound a ss o E s Hin) as (s' & H1 & H2).
+      exists s'. split; [simpl; rewrite H1; reflexivity|apply In_sdedup; exact H2].
+    - (* PSeq *)
+      inversion Hp as [|l0 trs HF| | |]; subst. clear Hp. simpl in H.
+      revert IHl ss outs H s Hin.
+      induction HF as [|q t l' trs' Hq HF' IH2]; intros IHl ss outs H s Hin.
+      + injection H as <-. exists s. split; [reflexivity|exact Hin].
+      + destruct (acheck seqb stepf q ss) as [ss1|] eqn:E; [|discriminate].
+        inversion IHl as [|? ? IHq IHl']; subst.
+        destruct (IHq ss ss1 E s t Hin Hq) as (s1 & R1 & In1).
+        destruct (IH2 IHl' ss1 outs H s1 In1) as (s2 & R2 & In2).
+        exists s2. split; [|exact In2]. simpl. rewrite arun_app, R1. exact R2.
+    - (* PBranch *)
+      inversion Hp as [| |alts0 p tr0 Hpin Hpp| |]; subst. clear Hp. simpl in H.
+      match type of H with option_map _ ?X = _ => destruct X as [o|] eqn:G end; [|discriminate].
+      simpl in H. injection H as <-.
+      assert (Hex : exists s', arun stepf s tr = Some s' /\ In s' o).
+      { revert o G. induction alts as [|q r IHr]; intros o G; [contradiction|].
+        destruct (acheck seqb stepf q ss) as [oa|] eqn:E1; [|discriminate].
+        match type of G with match ?X with _ => _ end = _ => destruct X as [ob|] eqn:E2 end; [|discriminate].
+        injection G as <-. inversion IHa as [|? ? IHq IHr']; subst.
+        destruct Hpin as [->|Hpin].
+        - destruct (IHq ss oa E1 s tr Hin Hpp) as (s' & R & I). exists s'. split; [exact R|].
+          apply in_or_app. left. exact I.
+        - destruct (IHr IHr' Hpin ob eq_refl) as (s' & R & I). exists s'. split; [exact R|].
+          apply in_or_app. right. exact I. }
+      destruct Hex as (s' & R & I). exists s'. split; [exact R|apply In_sdedup; exact I].
+    - (* PLoop *)
+      inversion Hp as [| | |b0 trs HF|]; subst. clear Hp. simpl in H.
+      destruct (acheck seqb stepf b ss) as [ss'|] eqn:E; [|discriminate].
+      destruct (forallb (fun x => smem S seqb x ss) ss') eqn:F; [|discriminate]. injection H as <-.
+      revert s Hin. induction HF as [|t trs' Ht HF' IH2]; intros s Hin.
+      + exists s. split; [reflexivity|exact Hin].
+      + destruct (IHb ss ss' E s t Hin Ht) as (s1 & R1 & In1).
+        rewrite forallb_forall in F. pose proof (smem_In _ _ (F s1 In1)) as In1'.
+        destruct (IH2 s1 In1') as (s2 & R2 & In2).
+        exists s2. split; [|exact In2]. simpl. rewrite arun_app, R1. exact R2.
+    - (* PExit *)
+      inversion Hp; subst. simpl in H. eapply IHc; eassumption.
+  Qed.
+End AbstractInterpreterSound.
+
+Lemma forallb_and_l : forall A (f g : A -> bool) l,
+  forallb (fun x => f x && g x) l = true -> forallb f l = true /\ forallb g l = true.
 Proof.
-  intros h hs H. unfold hmem in H. apply existsb_exists in H. destruct H as (x & Hin & He).
-  apply hl_eqb_eq in He. subst x. exact Hin.
+  induction l as [|x l IH]; simpl; intro H; [split; reflexivity|].
+  apply andb_prop in H. destruct H as [H1 H2]. apply andb_prop in H1. destruct H1 as [Hf Hg].
+  destruct (IH H2) as [I1 I2]. rewrite Hf, Hg, I1, I2. split; reflexivity.
 Qed.
 
-Lemma In_hdedup : forall x hs, In x hs -> In x (hdedup hs).
+Lemma crun_g_cordered : forall ok tr h, crun_g ok h tr = Some [] -> cordered_from h tr = true.
 Proof.
-  induction hs as [|y r IH]; intro H; [contradiction|]. simpl.
-  destruct (hmem y r) eqn:E.
-  - destruct H as [->|H]; [apply IH; apply hmem_In; exact E|apply IH; exact H].
-  - destruct H as [->|H]; [left; reflexivity|right; apply IH; exact H].
-Qed.
-
-Lemma crun_app : forall t1 h t2,
-  crun h (t1 ++ t2) = match crun h t1 with Some h' => crun h' t2 | None => None end.
-Proof.
-  induction t1 as [|a t1 IH]; intros h t2; simpl; [reflexivity|].
-  destruct (cstep a h); [apply IH|reflexivity].
-Qed.
-
-Lemma crun_cordered : forall tr h, crun h tr = Some [] -> cordered_from h tr = true.
-Proof.
-  induction tr as [|a tr IH]; intros h H; simpl in H.
+  intros ok. unfold crun_g. induction tr as [|a tr IH]; intros h H; simpl in H.
   - injection H as ->. reflexivity.
-  - destruct (cstep a h) as [h'|] eqn:E; [|discriminate].
+  - destruct (cstep_g ok a h) as [h'|] eqn:E; [|discriminate].
     destruct a as [c|c|c| | | | | | | | ]; simpl in E |- *;
       try (injection E as <-; apply IH; exact H).
-    + destruct (forallb (fun x => crank x <? crank c) h); [|discriminate].
-      injection E as <-. simpl. apply IH. exact H.
+    + destruct (forallb (fun x => (crank x <? crank c) && ok x c) h) eqn:F; [|discriminate].
+      injection E as <-. apply forallb_and_l in F. destruct F as [F _]. rewrite F. simpl. apply IH. exact H.
     + destruct (existsb (cres_eqb c) h); [|discriminate].
       injection E as <-. simpl. apply IH. exact H.
     + destruct h as [|x [|y h]]; try discriminate.
@@ -1149,75 +1198,118 @@ Proof.
       injection E as <-. simpl. apply IH. exact H.
 Qed.
 
-Lemma step_all_sound : forall a hs o, step_all a hs = Some o ->
-  forall h, In h hs -> exists h', cstep a h = Some h' /\ In h' o.
+(** every nesting of a run that satisfies the extra condition [ok] satisfies it *)
+Lemma crun_g_nest : forall ok tr h h', crun_g ok h tr = Some h' ->
+  forallb (fun pr => ok (fst pr) (snd pr)) (cnest_from h tr) = true.
 Proof.
-  induction hs as [|x r IH]; intros o H h Hin; [contradiction|].
-  simpl in H. destruct (cstep a x) as [x'|] eqn:E1; [|discriminate].
-  destruct (step_all a r) as [o'|] eqn:E2; [|discriminate]. injection H as <-.
-  destruct Hin as [->|Hin].
-  - exists x'. split; [exact E1|left; reflexivity].
-  - destruct (IH o' eq_refl h Hin) as (h' & H1 & H2). exists h'. split; [exact H1|right; exact H2].
+  intros ok. unfold crun_g. induction tr as [|a tr IH]; intros h h' H; simpl in H; [reflexivity|].
+  destruct (cstep_g ok a h) as [h1|] eqn:E; [|discriminate].
+  destruct a as [c|c|c| | | | | | | | ]; simpl in E |- *;
+    try (injection E as <-; eapply IH; exact H).
+  - destruct (forallb (fun x => (crank x <? crank c) && ok x c) h) eqn:F; [|discriminate].
+    injection E as <-. apply forallb_and_l in F. destruct F as [_ F].
+    rewrite forallb_app. rewrite forallb_map_eq. simpl. rewrite F. simpl. eapply IH. exact H.
+  - destruct (existsb (cres_eqb c) h); [|discriminate]. injection E as <-. eapply IH. exact H.
+  - destruct h as [|x [|y h]]; try discriminate.
+    destruct (cres_eqb x c) eqn:Ex; [|discriminate]. injection E as <-. simpl. rewrite Ex. eapply IH. exact H.
+  - destruct (forallb (fun x => crank x <? join_rank) h); [|discriminate]. injection E as <-. eapply IH. exact H.
 Qed.
 
-(** soundness of the abstract interpretation: from any entry held list in [hs], every path of [p]
-    runs without violating the discipline and ends in a held list of the computed set *)
-Theorem check_sound : forall p hs outs, check p hs = Some outs ->
-  forall h tr, In h hs -> paths p tr -> exists h', crun h tr = Some h' /\ In h' outs.
+Theorem check_g_sound : forall ok p hs outs, check_g ok p hs = Some outs ->
+  forall h tr, In h hs -> paths p tr -> exists h', crun_g ok h tr = Some h' /\ In h' outs.
+Proof. intros ok. unfold check_g, crun_g. apply acheck_sound. exact hl_eqb_eq. Qed.
+
+Lemma all_nil_In : forall outs h, all_nil outs = true -> In h outs -> h = [].
 Proof.
-  induction p as [a|l IHl|alts IHa|b IHb|c IHc] using cprog_ind'; intros hs outs H h tr Hin Hp.
-  - (* PAct *)
-    inversion Hp; subst. simpl in H.
-    destruct (step_all a hs) as [o|] eqn:E; [|discriminate]. simpl in H. injection H as <-.
-    destruct (step_all_sound a hs o E h Hin) as (h' & H1 & H2).
-    exists h'. split; [simpl; rewrite H1; reflexivity|apply In_hdedup; exact H2].
-  - (* PSeq *)
-    inversion Hp as [|l0 trs HF| | |]; subst. clear Hp. simpl in H.
-    revert IHl hs outs H h Hin.
-    induction HF as [|q t l' trs' Hq HF' IH2]; intros IHl hs outs H h Hin.
-    + injection H as <-. exists h. split; [reflexivity|exact Hin].
-    + destruct (check q hs) as [hs1|] eqn:E; [|discriminate].
-      inversion IHl as [|? ? IHq IHl']; subst.
-      destruct (IHq hs hs1 E h t Hin Hq) as (h1 & R1 & In1).
-      destruct (IH2 IHl' hs1 outs H h1 In1) as (h2 & R2 & In2).
-      exists h2. split; [|exact In2]. simpl. rewrite crun_app, R1. exact R2.
-  - (* PBranch *)
-    inversion Hp as [| |alts0 p tr0 Hpin Hpp| |]; subst. clear Hp. simpl in H.
-    match type of H with option_map _ ?X = _ => destruct X as [o|] eqn:G end; [|discriminate].
-    simpl in H. injection H as <-.
-    assert (Hex : exists h', crun h tr = Some h' /\ In h' o).
-    { revert o G. induction alts as [|q r IHr]; intros o G; [contradiction|].
-      destruct (check q hs) as [oa|] eqn:E1; [|discriminate].
-      match type of G with match ?X with _ => _ end = _ => destruct X as [ob|] eqn:E2 end; [|discriminate].
-      injection G as <-. inversion IHa as [|? ? IHq IHr']; subst.
-      destruct Hpin as [->|Hpin].
-      - destruct (IHq hs oa E1 h tr Hin Hpp) as (h' & R & I). exists h'. split; [exact R|].
-        apply in_or_app. left. exact I.
-      - destruct (IHr IHr' Hpin ob eq_refl) as (h' & R & I). exists h'. split; [exact R|].
-        apply in_or_app. right. exact I. }
-    destruct Hex as (h' & R & I). exists h'. split; [exact R|apply In_hdedup; exact I].
-  - (* PLoop *)
-    inversion Hp as [| | |b0 trs HF|]; subst. clear Hp. simpl in H.
-    destruct (check b hs) as [hs'|] eqn:E; [|discriminate].
-    destruct (forallb (fun h0 => hmem h0 hs) hs') eqn:F; [|discriminate]. injection H as <-.
-    revert h Hin. induction HF as [|t trs' Ht HF' IH2]; intros h Hin.
-    + exists h. split; [reflexivity|exact Hin].
-    + destruct (IHb hs hs' E h t Hin Ht) as (h1 & R1 & In1).
-      rewrite forallb_forall in F. pose proof (hmem_In _ _ (F h1 In1)) as In1'.
-      destruct (IH2 h1 In1') as (h2 & R2 & In2).
-      exists h2. split; [|exact In2]. simpl. rewrite crun_app, R1. exact R2.
-  - (* PExit *)
-    inversion Hp; subst. simpl in H. eapply IHc; eassumption.
+  intros outs h H Hin. unfold all_nil in H. rewrite forallb_forall in H. specialize (H h Hin).
+  destruct h; [reflexivity|discriminate].
 Qed.
 
 Theorem prog_ordered_sound : forall p, prog_ordered p = true ->
   forall tr, paths p tr -> cordered tr = true.
 Proof.
-  intros p H tr Hp. unfold prog_ordered in H.
-  destruct (check p [[]]) as [outs|] eqn:E; [|discriminate].
-  destruct (check_sound p [[]] outs E [] tr (or_introl eq_refl) Hp) as (h' & R & I).
-  rewrite forallb_forall in H. specialize (H h' I). destruct h'; [|discriminate].
-  unfold cordered. apply crun_cordered. exact R.
+  intros p H tr Hp. unfold prog_ordered, check in H.
+  destruct (check_g ok_any p [[]]) as [outs|] eqn:E; [|discriminate].
+  destruct (check_g_sound ok_any p [[]] outs E [] tr (or_introl eq_refl) Hp) as (h' & R & I).
+  rewrite (all_nil_In outs h' H I) in R. unfold cordered. eapply crun_g_cordered. exact R.
+Qed.
+
+(** the order is derived on ALL paths: with [prog_nest_ok allowed p], every nesting (held, acquired)
+    of every path of [p] is in [allowed] (and the path is Ordered) *)
+Theorem prog_nest_sound : forall allowed p, prog_nest_ok allowed p = true ->
+  forall tr, paths p tr ->
+  cordered tr = true /\
+  forall x r, In (x, r) (cnest_from [] tr) -> pair_in allowed x r = true.
+Proof.
+  intros allowed p H tr Hp. unfold prog_nest_ok in H.
+  destruct (check_g (pair_in allowed) p [[]]) as [outs|] eqn:E; [|discriminate].
+  destruct (check_g_sound _ p [[]] outs E [] tr (or_introl eq_refl) Hp) as (h' & R & I).
+  split.
+  - rewrite (all_nil_In outs h' H I) in R. unfold cordered. eapply crun_g_cordered. exact R.
+  - intros x r Hin. pose proof (crun_g_nest _ tr [] h' R) as F. rewrite forallb_forall in F.
+    exact (F (x, r) Hin).
+Qed.
+
+(** a scripted path is a path *)
+Theorem choose_sound : forall d p sc tr sc', choose d p sc = Some (tr, sc') -> paths p tr.
+Proof.
+  intros d. induction p as [a|l IHl|alts IHa|b IHb|c IHc] using cprog_ind'; intros sc tr sc' H.
+  - simpl in H. injection H as <- <-. constructor.
+  - simpl in H.
+    assert (G : exists trs, Forall2 paths l trs /\ tr = List.concat trs).
+    { revert sc tr sc' H. induction l as [|q r IHr]; intros sc tr sc' H.
+      - injection H as <- <-. exists []. split; [constructor|reflexivity].
+      - inversion IHl as [|? ? IHq IHl']; subst.
+        destruct (choose d q sc) as [[t1 sc1]|] eqn:E1; [|discriminate].
+        match type of H with match ?X with _ => _ end = _ => destruct X as [[t2 sc2]|] eqn:E2 end; [|discriminate].
+        injection H as <- <-.
+        destruct (IHr IHl' sc1 t2 sc2 E2) as (trs & HF & ->).
+        exists (t1 :: trs). split; [constructor; [eapply IHq; exact E1|exact HF]|reflexivity]. }
+    destruct G as (trs & HF & ->). constructor. exact HF.
+  - assert (G : forall s0 i,
+      (fix pick (l : list cprog) (i : nat) {struct l} : option (list caction * list nat) :=
+         match l, i with
+         | [], _ => None
+         | [q], _ => choose d q s0
+         | q :: _, O => choose d q s0
+         | _ :: r, S j => pick r j
+         end) alts i = Some (tr, sc') -> paths (PBranch alts) tr).
+    { clear H. intros s0. induction alts as [|q r IHr]; intros i H0; [discriminate|].
+      inversion IHa as [|? ? IHq IHa']; subst.
+      destruct r as [|q2 r2].
+      - eapply pa_branch; [left; reflexivity|]. destruct i; eapply IHq; exact H0.
+      - destruct i as [|j].
+        + eapply pa_branch; [left; reflexivity|eapply IHq; exact H0].
+        + specialize (IHr IHa' j H0). inversion IHr; subst.
+          eapply pa_branch; [right; eassumption|assumption]. }
+    simpl in H. destruct sc as [|i sc0]; [exact (G [] d H)|exact (G sc0 i H)].
+  - simpl in H.
+    assert (G : forall n sc tr sc',
+      (fix it (n : nat) (sc : list nat) : option (list caction * list nat) :=
+         match n with
+         | O => Some ([], sc)
+         | S m => match choose d b sc with
+                  | Some (t1, sc1) => match it m sc1 with
+                                      | Some (t2, sc2) => Some (t1 ++ t2, sc2)
+                                      | None => None
+                                      end
+                  | None => None
+                  end
+         end) n sc = Some (tr, sc') -> exists trs, Forall (paths b) trs /\ tr = List.concat trs).
+    { induction n as [|m IHm]; intros sc0 tr0 sc0' H0.
+      - injection H0 as <- <-. exists []. split; [constructor|reflexivity].
+      - destruct (choose d b sc0) as [[t1 sc1]|] eqn:E1; [|discriminate].
+        match type of H0 with match ?X with _ => _ end = _ => destruct X as [[t2 sc2]|] eqn:E2 end; [|discriminate].
+        injection H0 as <- <-. destruct (IHm sc1 t2 sc2 E2) as (trs & HF & ->).
+        exists (t1 :: trs). split; [constructor; [eapply IHb; exact E1|exact HF]|reflexivity]. }
+    destruct sc as [|n sc0]; destruct (G _ _ _ _ H) as (trs & HF & ->); constructor; exact HF.
+  - simpl in H. constructor. eapply IHc. exact H.
+Qed.
+
+Lemma path_of_paths : forall d p sc, choose d p sc <> None -> paths p (path_of d p sc).
+Proof.
+  intros d p sc H. unfold path_of. destruct (choose d p sc) as [[tr sc']|] eqn:E; [|contradiction].
+  eapply choose_sound. exact E.
 Qed.
 
 (** paths only use actions that occur in the program *)
@@ -1413,4 +1505,248 @@ Theorem all_paths_erased_ordered : forall name p, In (name, p) all_programs ->
 Proof.
   intros name p Hin tr Hp c. destruct (all_paths_ordered name p Hin tr Hp) as [Hc _].
   exact (cordered_erase c tr [] Hc).
+Qed.
+
+(* ------------------------------------------------------------ obligations over ALL PATHS of the generated programs *)
+(** (the flat-table versions - [table_ordered], [stop_protocol_ok], [cnest_from] on [all_footprints] - are
+    no longer instantiated: a harmless rewrite may make a linearisation unbalanced; the flat table
+    stays a checked view of the programs through [generated_tables_agree]) *)
+
+Lemma enum_sound : forall p L, enum p = Some L -> forall tr, paths p tr -> In tr L.
+Proof.
+  induction p as [a|l IHl|alts IHa|b IHb|c IHc] using cprog_ind'; intros L H tr Hp.
+  - inversion Hp; subst. simpl in H. injection H as <-. left. reflexivity.
+  - inversion Hp as [|l0 trs HF| | |]; subst. clear Hp. simpl in H.
+    revert IHl L H. induction HF as [|q t l' trs' Hq HF' IH2]; intros IHl L H.
+    + injection H as <-. left. reflexivity.
+    + inversion IHl as [|? ? IHq IHl']; subst.
+      destruct (enum q) as [A|] eqn:E1; [|discriminate].
+      match type of H with match ?X with _ => _ end = _ => destruct X as [B|] eqn:E2 end; [|discriminate].
+      injection H as <-. simpl. apply in_flat_map. exists t. split; [eapply IHq; eauto|].
+      apply in_map. eapply IH2; eauto.
+  - inversion Hp as [| |alts0 p tr0 Hpin Hpp| |]; subst. clear Hp. simpl in H.
+    revert L H. induction alts as [|q r IHr]; intros L H; [contradiction|].
+    inversion IHa as [|? ? IHq IHa']; subst.
+    destruct (enum q) as [A|] eqn:E1; [|discriminate].
+    match type of H with match ?X with _ => _ end = _ => destruct X as [B|] eqn:E2 end; [|discriminate].
+    injection H as <-. apply in_or_app. destruct Hpin as [->|Hpin].
+    + left. eapply IHq; eauto.
+    + right. eapply IHr; eauto.
+  - discriminate.
+  - inversion Hp; subst. simpl in H. eapply IHc; eauto.
+Qed.
+
+Lemma enum_forall : forall p L (f : list caction -> bool), enum p = Some L -> forallb f L = true ->
+  forall tr, paths p tr -> f tr = true.
+Proof.
+  intros p L f HE HF tr Hp. rewrite forallb_forall in HF. apply HF. eapply enum_sound; eauto.
+Qed.
+
+Definition allowed_nesting : list (cres * cres) := [(CSlot, CStop); (CBar, CMulti)].
+
+Lemma generated_nest_ok :
+  forallb (fun np : String.string * cprog => prog_nest_ok allowed_nesting (snd np)) all_programs = true.
+Proof. vm_compute. reflexivity. Qed.
+
+(** every path of every generated program (every instance) is Ordered; every path of the ticker
+    program is Ordered and a legal worker *)
+Theorem footprints_ordered_paths :
+  (forall name p, In (name, p) all_programs -> forall tr, paths p tr ->
+     cordered tr = true /\ forall b m k, Ordered (map (inst b m k) tr)) /\
+  (forall tr, paths ticker_prog tr ->
+     forall b m k, Ordered (map (inst b m k) tr) /\ worker_ok (map (inst b m k) tr) = true).
+Proof. split; [exact all_paths_ordered|exact ticker_paths_worker]. Qed.
+
+(** the order is derived on all paths: the only nestings are Slot -> Stop and Bar -> Multi, and both occur *)
+Theorem nesting_derived_paths :
+  (forall name p, In (name, p) all_programs -> forall tr, paths p tr ->
+     forall x r, In (x, r) (cnest_from [] tr) -> (x, r) = (CSlot, CStop) \/ (x, r) = (CBar, CMulti)) /\
+  (exists name p tr, In (name, p) all_programs /\ paths p tr /\
+     In (CSlot, CStop) (cnest_from [] tr) /\ In (CBar, CMulti) (cnest_from [] tr)).
+Proof.
+  split.
+  - intros name p Hin tr Hp x r Hn.
+    pose proof generated_nest_ok as H. rewrite forallb_forall in H. specialize (H _ Hin). simpl in H.
+    destruct (prog_nest_sound allowed_nesting p H tr Hp) as [_ Hall]. specialize (Hall x r Hn).
+    destruct x, r; simpl in Hall; try discriminate; auto.
+  - exists "ProgressBar::finish"%string.
+    destruct (pg_lookup "ProgressBar::finish"%string all_programs) as [p|] eqn:E; [|vm_compute in E; discriminate].
+    exists p, (path_of 0 p []).
+    assert (Hin : In ("ProgressBar::finish"%string, p) all_programs).
+    { vm_compute in E. injection E as <-. vm_compute. tauto. }
+    split; [exact Hin|]. split.
+    + apply path_of_paths. vm_compute in E. injection E as <-. vm_compute. discriminate.
+    + vm_compute in E. injection E as <-. vm_compute. tauto.
+Qed.
+
+(** the stop protocol on all paths of the programs *)
+Definition noticker_wake_fp : list caction := [CRel CBar; CAcq CSlot; CRel CSlot].
+Definition enum_all (tbl : list (String.string * cprog)) (name : String.string) (f : list caction -> bool) : bool :=
+  match pg_lookup name tbl with
+  | Some p => match enum p with Some L => forallb f L | None => false end
+  | None => false
+  end.
+Definition stop_protocol_p (tbl : list (String.string * cprog)) : bool :=
+  enum_all tbl "Ticker::stop" (fun tr => list_eqb caction_eqb tr stop_fp) &&
+  enum_all tbl "Ticker::drop:drop"
+    (fun tr => list_eqb caction_eqb tr (stop_fp ++ [CJoin]) || list_eqb caction_eqb tr stop_fp) &&
+  forallb (fun n => enum_all tbl n (fun tr => ends_with wake_fp tr || ends_with noticker_wake_fp tr)) finish_names.
+
+Lemma generated_stop_protocol_p : stop_protocol_p all_programs = true.
+Proof. vm_compute. reflexivity. Qed.
+
+Lemma enum_all_paths : forall tbl name f, enum_all tbl name f = true ->
+  exists p, pg_lookup name tbl = Some p /\ forall tr, paths p tr -> f tr = true.
+Proof.
+  intros tbl name f H. unfold enum_all in H.
+  destruct (pg_lookup name tbl) as [p|]; [|discriminate]. exists p. split; [reflexivity|].
+  destruct (enum p) as [L|] eqn:E; [|discriminate]. eapply enum_forall; eauto.
+Qed.
+
+(** what the ticker automaton takes for granted about the code, on ALL PATHS of the generated programs:
+    the only path of Ticker::stop is lock Stop, set the flag, unlock, notify; Ticker::drop is stop and
+    then (if there is a handle) join; every path of every finish*/abandon* method ends with: release
+    the bar state, lock the slot, (if a ticker is installed: stop it), unlock the slot *)
+Theorem stop_protocol_paths :
+  (exists p, pg_lookup "Ticker::stop" all_programs = Some p /\
+     forall tr, paths p tr -> list_eqb caction_eqb tr stop_fp = true) /\
+  (exists p, pg_lookup "Ticker::drop:drop" all_programs = Some p /\
+     forall tr, paths p tr ->
+       list_eqb caction_eqb tr (stop_fp ++ [CJoin]) || list_eqb caction_eqb tr stop_fp = true) /\
+  (forall n, In n finish_names ->
+     exists p, pg_lookup n all_programs = Some p /\
+       forall tr, paths p tr -> ends_with wake_fp tr || ends_with noticker_wake_fp tr = true).
+Proof.
+  pose proof generated_stop_protocol_p as H. unfold stop_protocol_p in H.
+  apply andb_prop in H. destruct H as [H H3]. apply andb_prop in H. destruct H as [H1 H2].
+  split; [exact (enum_all_paths _ _ _ H1)|]. split; [exact (enum_all_paths _ _ _ H2)|].
+  intros n Hn. rewrite forallb_forall in H3. exact (enum_all_paths _ _ _ (H3 n Hn)).
+Qed.
+
+(** ProgressBar::tick_inner and BarState::tick are what [Locks.tick_inner] transcribes: the generated
+    source pins (comments stripped, white space normalised) are literally these two bodies *)
+Lemma generated_tick_sources :
+  src_tick_inner = "if self.ticker.lock().unwrap().is_none() { self.state().tick(now); }"%string /\
+  src_barstate_tick = "self.state.tick = self.state.tick.saturating_add(1); self.update_estimate_and_draw(now);"%string.
+Proof. split; reflexivity. Qed.
+
+(** ... and in the structured program of ProgressBar::tick the tick lies in one alternative of the branch
+    that follows the slot test: the other alternative is the path "lock the slot, unlock it, nothing else" *)
+Lemma generated_tick_program :
+  exists p, pg_lookup "ProgressBar::tick" all_programs = Some p /\ paths p [CAcq CSlot; CRel CSlot].
+Proof.
+  destruct (pg_lookup "ProgressBar::tick"%string all_programs) as [p|] eqn:E; [|vm_compute in E; discriminate].
+  exists p. split; [reflexivity|]. vm_compute in E. injection E as <-.
+  match goal with |- paths ?P _ => change [CAcq CSlot; CRel CSlot] with (path_of 0 P [1]) end.
+  apply path_of_paths. vm_compute. discriminate.
+Qed.
+
+(** on every path of every generated program BarState::tick (CTick) runs while the bar state is locked *)
+Definition tub_step (a : caction) (held : bool) : option bool :=
+  match a with
+  | CAcq CBar => Some true
+  | CRel CBar => Some false
+  | CTick => if held then Some held else None
+  | _ => Some held
+  end.
+Definition tick_guarded (tr : list caction) : bool :=
+  match arun tub_step false tr with Some _ => true | None => false end.
+Definition tick_under_bar (p : cprog) : bool :=
+  match acheck Bool.eqb tub_step p [false] with Some _ => true | None => false end.
+
+Lemma generated_tick_under_bar :
+  forallb (fun np : String.string * cprog => tick_under_bar (snd np)) all_programs = true.
+Proof. vm_compute. reflexivity. Qed.
+
+Theorem tick_under_bar_paths : forall name p, In (name, p) all_programs ->
+  forall tr, paths p tr -> tick_guarded tr = true.
+Proof.
+  intros name p Hin tr Hp. pose proof generated_tick_under_bar as H. rewrite forallb_forall in H.
+  specialize (H _ Hin). simpl in H. unfold tick_under_bar in H.
+  destruct (acheck Bool.eqb tub_step p [false]) as [outs|] eqn:E; [|discriminate].
+  destruct (acheck_sound bool Bool.eqb (fun x y => proj1 (Bool.eqb_true_iff x y)) tub_step p [false] outs E
+              false tr (or_introl eq_refl) Hp) as (s' & R & _).
+  unfold tick_guarded. rewrite R. reflexivity.
+Qed.
+
+(* ------------------------------------------------------------ a well-formed pool given by paths (non-vacuity) *)
+Lemma pg_lookup_In : forall name tbl p, pg_lookup name tbl = Some p -> In (name, p) tbl.
+Proof.
+  induction tbl as [|[n q] r IH]; intros p H; [discriminate|]. simpl in H.
+  destruct (String.eqb n name) eqn:E.
+  - injection H as <-. apply String.eqb_eq in E. subst n. left. reflexivity.
+  - right. apply IH. exact H.
+Qed.
+
+Lemma spawns_okb_sound : forall ths p, spawns_okb ths p = true -> spawns_ok ths p.
+Proof.
+  intros ths p H sl u Hin. unfold spawns_okb in H. rewrite forallb_forall in H.
+  specialize (H _ Hin). simpl in H.
+  destruct (nth_error ths u) as [tu|]; [|discriminate]. exists tu. split; [reflexivity|exact H].
+Qed.
+
+(** a segment: the path of the program [name] chosen by the script [sc], for bar 0, multi 0, ticker 1 *)
+Definition ex_seg (name : String.string) (d : nat) (sc : list nat) : option seg :=
+  match pg_lookup name all_programs with
+  | Some p => match choose d p sc with
+              | Some (tr, _) => Some (p, (0, 0, 1), tr)
+              | None => None
+              end
+  | None => None
+  end.
+Fixpoint somes {A} (l : list (option A)) : list A :=
+  match l with [] => [] | Some x :: r => x :: somes r | None :: r => somes r end.
+
+Lemma ex_seg_ok : forall name d sc sg, ex_seg name d sc = Some sg -> seg_ok all_programs sg.
+Proof.
+  intros name d sc sg H. unfold ex_seg in H.
+  destruct (pg_lookup name all_programs) as [p|] eqn:E; [|discriminate].
+  destruct (choose d p sc) as [[tr sc']|] eqn:C; [|discriminate]. injection H as <-.
+  simpl. split; [exists name; apply pg_lookup_In; exact E|eapply choose_sound; exact C].
+Qed.
+
+Lemma somes_ex_seg_ok : forall l : list (String.string * nat * list nat),
+  Forall (seg_ok all_programs) (somes (map (fun x => ex_seg (fst (fst x)) (snd (fst x)) (snd x)) l)).
+Proof.
+  induction l as [|[[n d] sc] r IH]; simpl; [constructor|].
+  destruct (ex_seg n d sc) as [sg|] eqn:E; [|exact IH]. constructor; [eapply ex_seg_ok; exact E|exact IH].
+Qed.
+
+(** thread 0: enable_steady_tick on the path "no ticker yet, spawn", disable_steady_tick on the path
+    "ticker installed: stop, join", then drop of a handle; thread 1 (spawned by thread 0): one iteration
+    of the ticker program that leaves through the early exit "bar finished" *)
+Definition wfp_calls : list (String.string * nat * list nat) :=
+  [ ("ProgressBar::enable_steady_tick", 0, [1; 0]);
+    ("ProgressBar::disable_steady_tick", 0, [0; 0; 1]);
+    ("ProgressBar::drop", 0, [1; 1]) ]%string.
+Definition wfp_segs : list seg := somes (map (fun x => ex_seg (fst (fst x)) (snd (fst x)) (snd x)) wfp_calls).
+Definition wfp_ticker_path : list caction := path_of 1 ticker_prog [1; 1; 0].
+Definition wfp_pool : list thread :=
+  [ uthread (List.concat (map seg_code wfp_segs)); wthread (map (inst 0 0 1) wfp_ticker_path) ].
+
+Lemma wfp_pool_WFp :
+  WFp all_programs wfp_pool /\
+  List.length wfp_segs = 3 /\
+  In (Spawn 0 1) (code (nth 0 wfp_pool (wthread []))) /\
+  In (Join 0) (code (nth 0 wfp_pool (wthread []))) /\
+  wfp_ticker_path =
+    [CUpgrade; CAcq CBar; CRel CBar; CDropArc].
+Proof.
+  assert (Ht : paths ticker_prog wfp_ticker_path).
+  { apply path_of_paths. vm_compute. discriminate. }
+  split; [|vm_compute; intuition].
+  split.
+  - apply Forall_cons; [|apply Forall_cons; [|apply Forall_nil]]; (split; [reflexivity|]).
+    + exists wfp_segs. split; [reflexivity|apply somes_ex_seg_ok].
+    + exists [(ticker_prog, (0, 0, 1), wfp_ticker_path)]. split; [simpl; rewrite app_nil_r; reflexivity|].
+      apply Forall_cons; [|apply Forall_nil]. simpl. split; [|exact Ht].
+      exists "TickerControl::run"%string. apply (proj1 generated_ticker_prog).
+  - apply Forall_cons; [|apply Forall_cons; [|apply Forall_nil]].
+    + intros sl u Hin. assert (Hu : (sl, u) = (0, 1)).
+      { vm_compute in Hin. repeat (destruct Hin as [Hin|Hin]; [try discriminate Hin|]); try contradiction.
+        injection Hin as <- <-. reflexivity. }
+      injection Hu as -> ->. eexists. split; [reflexivity|]. simpl.
+      apply (proj2 (ticker_paths_worker _ Ht 0 0 1)).
+    + intros sl u Hin. exfalso. vm_compute in Hin.
+      repeat (destruct Hin as [Hin|Hin]; [discriminate Hin|]). contradiction.
 Qed.
